@@ -275,7 +275,13 @@ func (i *IPC) ProxyAnswers(arg messages.Arg, response *[]byte) error {
 	*response = b
 
 	if success {
-		snowflake.answerChannel <- answer
+		// The client may have stopped waiting (timeout) but not yet
+		// deregistered the snowflake: never block on it. The channel
+		// has room for the one answer a session can have.
+		select {
+		case snowflake.answerChannel <- answer:
+		default:
+		}
 	}
 
 	return nil
